@@ -7,7 +7,10 @@ From Coq Require Import List Arith Bool.
 From VF Require Import Lifecycle.Pool.
 Import ListNotations.
 
-Inductive sop := SStart | SStop | SRequest | STick.
+(* SStopBusy: stop() is called while the main thread is busy inside a request handler (can_handle /
+   prepare_context run on the main thread); the handler is released only after it has been observed
+   whether stop() returned in the meantime *)
+Inductive sop := SStart | SStop | SRequest | STick | SStopBusy.
 
 Section Seq.
   Variables (G PC OP : Type).
@@ -18,6 +21,8 @@ Section Seq.
   Variable idle : PC.
   Variables (op_start op_stop : OP).
   Variable view : G -> list nat.       (* [a call raised / internal error; listening socket open; main thread alive] *)
+  Variable busy : G -> G.              (* the main thread moves into the request handler (if it is in its loop) *)
+  Variable alive : G -> bool.          (* the main thread is alive *)
   Variable serving : G -> nat.         (* a request now: 1 answered, 0 refused / no reply, 2 accepted but never answered *)
 
   Definition solo (gl : G) (o : OP) : st G PC OP :=
@@ -29,6 +34,32 @@ Section Seq.
     | None => None
     end.
 
+  (* the caller alone, the main thread frozen: run until the call returns or blocks *)
+  Fixpoint run_frozen (fuel : nat) (s : st G PC OP) (started : bool) : st G PC OP * bool :=
+    match fuel with
+    | 0 => (s, false)
+    | S f =>
+        match nth_error (callers s) 0 with
+        | None => (s, false)
+        | Some c =>
+            if started && is_idle (pc c) then (s, true)
+            else match step G PC OP lkof cstep mstep s (C 0) with
+                 | Some s' => run_frozen f s' true
+                 | None => (s, false)
+                 end
+        end
+    end.
+
+  (* stop() while the handler blocks: (state afterwards, did stop() return while the main thread was alive) *)
+  Definition call_busy (gl : G) : option (G * bool) :=
+    let '(s1, returned) := run_frozen 40 (solo (busy gl) op_stop) false in
+    let early := returned && alive (g s1) in
+    if returned then Some (g s1, early)
+    else match run_call G PC OP lkof cstep mstep is_idle 40 s1 true with
+         | Some s2 => Some (g s2, early)
+         | None => None
+         end.
+
   (* observation after an operation: view ++ [request outcome; the call never returned] *)
   Definition seq_step (gl : G) (o : sop) : option (G * list nat) :=
     match o with
@@ -36,6 +67,10 @@ Section Seq.
     | SStop => match call gl op_stop with Some g' => Some (g', view g' ++ [0; 0]) | None => None end
     | SRequest => Some (gl, view gl ++ [serving gl; 0])
     | STick => let g' := match mstep gl with Some g' => g' | None => gl end in Some (g', view g' ++ [0; 0])
+    | SStopBusy => match call_busy gl with
+                   | Some (g', early) => Some (g', view g' ++ [if early then 1 else 0; 0])
+                   | None => None
+                   end
     end.
 
   Fixpoint run_seq (gl : G) (h : list sop) : list (list nat) :=
@@ -50,7 +85,7 @@ End Seq.
 
 (* the specification: a two-state automaton; r = "running" *)
 Definition spec_next (r : bool) (o : sop) : bool :=
-  match o with SStart => true | SStop => false | _ => r end.
+  match o with SStart => true | SStop | SStopBusy => false | _ => r end.
 Definition b2 (b : bool) : nat := if b then 1 else 0.
 Definition spec_obs (r : bool) (o : sop) : list nat :=
   let r' := spec_next r o in
